@@ -5,7 +5,7 @@ from .. import fam_pipeline as fp
 from .. import gen_models as gm
 from .. import pipeline as pl
 
-THEOREMS = ["C17.dq_q_rounded", "C17.zp_in_range", "C04.bias_params", "C03.xfs_srq"]
+THEOREMS = ["C07.accumulator_exact", "C07.bias_scale_necessary", "C07.dot_perturbation", "C17.dq_q_rounded", "C17.zp_in_range", "C04.bias_params", "C03.xfs_srq"]
 
 
 def gen(rng, i):
@@ -20,7 +20,7 @@ def gen(rng, i):
 def run(ctx):
     ctx.rule = ("generated float models of bounded depth (1-4 ops) x the static-range configs (8/16-bit activations, 4/8-bit weights, symmetric/asymmetric activations, per-tensor/per-channel weights) x random calibration inputs: dequantized outputs of interpreter(quantized) vs interpreter(float) on the calibration input with a deliberately generous bound, plus the crisp sub-claims (finite, not constant when the float output is not); pipeline compared with the Lean model; distinct = distinct (model, recipe)")
     ctx.explanation = ("PARTIAL: the fixed-point kernels of LiteRT are outside this repository; what is proved is what the quantizer contributes to the numerics: parameters (C17 under rounding), bias scale = input scale x weight scale with zero point 0 (C04.bias_params, which makes the integer accumulator the float op on dequantized operands), and the per-operand transformations (C03.xfs_srq). Closeness of interpreter outputs is executed with a generous bound, not proved.")
-    common.proof_side(ctx, THEOREMS, modules=["QProps.C17", "QProps.C17b", "QProps.C04", "QProps.C03"])
+    common.proof_side(ctx, THEOREMS, modules=["QProps.C07", "QProps.C17", "QProps.C17b", "QProps.C04", "QProps.C03"])
     drv = common.Driver()
     interp = pl.Interp()
 
